@@ -109,7 +109,12 @@ MANIFEST = dict(
          "all plain), C19_descendant_tail_lists_agrees (= tailOf when no node called name is a list), "
          "C19_descendant_tail_lists_positions / _iff / _iff_list_root (found iff the node at a position ...name, any number of list "
          "indexes, sub - getAt, both inclusions). "
-         "NOT proved, checked on the implementation only: tails of three and more steps (evaluator "
+         "C19_descendant_tail_n / C19_descendant_tail_n_list_root (dict root and n0list root; +_distinct, _ref, _positions, _iff - found iff the node at a position ending with the keys name, s1..sk; Proofs/FindAllTailN.lean): a tail of ANY length, '//*/name/s1/.../sk' (k >= 0, "
+         "plain names) on a dict root with KeysOkV, ContOkV and no entry called like a non-final step being a list (NnlsV): exactly "
+         "tailN subs (descV name root) - tailOf iterated along the tail, = the walk along the keys through dictionaries below every "
+         "node called name - canonical xpaths, document order, no key twice, unbounded in size, depth and k; a walk that meets a "
+         "missing key or a final element is a miss of that branch only. "
+         "NOT proved, checked on the implementation only: tails of three and more steps with LISTS under a non-final step (evaluator "
          "descendant against a DFS oracle that fans out over lists + streams; soundness of every result is C19_keys_spell), "
          "object identity (`is`), and that the real code does not write "
          "into the tree (the model is a pure function that does not thread the tree). The model is compared with the real "
